@@ -13,8 +13,10 @@ use isograph_schema::{
 use prelude::Postfix;
 
 use crate::{
-    generate_artifacts::QUERY_TEXT, normalization_ast_text::generate_normalization_ast_text,
-    operation_text::generate_operation_text, persisted_documents::PersistedDocuments,
+    generate_artifacts::QUERY_TEXT,
+    normalization_ast_text::generate_normalization_ast_text,
+    operation_text::{generate_operation_text, query_text_file_content},
+    persisted_documents::PersistedDocuments,
 };
 
 #[expect(clippy::too_many_arguments)]
@@ -154,7 +156,7 @@ pub(crate) fn get_paths_and_contents_for_imperatively_loaded_field<
 
     vec![
         ArtifactPathAndContent {
-            file_content: format!("export default '{query_text}';").into(),
+            file_content: query_text_file_content(&query_text).into(),
             artifact_path: ArtifactPath {
                 file_name: query_text_file_name_with_extension,
                 type_and_field: EntityNameAndSelectableName {
